@@ -635,6 +635,8 @@ fn write_evidence(d: &Driver, path: &Path, violations: i64, replays: &[Value], k
             "largest_input_chambers": a.in_size_max,
             "certificates_verified": a.certificates_ok,
             "intermediate_states_checked": a.states_checked,
+            "runs_with_recorded_states": a.runs_with_states,
+            "runs_with_bad_intermediate_state_by_kind_diagnostic_only": a.bad_intermediate_states,
             "inconclusive_by_kind": a.inconclusive,
             "notes": a.notes,
             "unjudged_outcome_splits": a.unjudged_outcome_splits.iter().cloned().collect::<Vec<_>>(),
